@@ -309,6 +309,12 @@ class Stats:
             if h not in self.nontrivial and len(self.nt_samples) < self.MAX_SAMPLES:
                 self.nt_samples.append(_short(case))
             self.nontrivial.add(h)
+        elif res.get('nontrivial_keys'):
+            if len(self.nt_samples) < self.MAX_SAMPLES:
+                s_ = _short(case)
+                if isinstance(s_, dict) and 'truncated' not in s_:
+                    s_ = dict(s_, _nontrivial_items=list(res['nontrivial_keys'][:3]))
+                self.nt_samples.append(s_)
         elif len(self.samples) < 4:
             self.samples.append(_short(case))
         for extra in res.get('nontrivial_keys', []):
